@@ -519,6 +519,9 @@ def run_check(prop_id, tier, seed):
                     failures[b]['details'] = r['shrunk']['details']
                     failures[b]['shrunk'] = True
 
+    # 4. optional coverage-guided second engine (atheris) ---------------------------------------------------------
+    fuzz_info = run_fuzz_engine(prop_id, tier, seed, mod_meta.get('FUZZ', {}).get(tier), totals, failures, errors)
+
     for b in sorted(failures):
         f = failures[b]
         path = write_replay(prop_id, f['config'], tier, seed, f)
@@ -549,6 +552,7 @@ def run_check(prop_id, tier, seed):
             'cases_stopped_by_per_case_timeout': totals.get('case_timeouts', 0),
             'inconclusive': bool(totals['timed_out'] or totals.get('case_timeouts', 0)),
             'violation_buckets': [v[0] for v in violations],
+            'coverage_guided_engine': fuzz_info,
             'tree': REPO_DIR,
         },
         'assumptions': mod_meta['ASSUMPTIONS'],
@@ -576,6 +580,71 @@ def run_check(prop_id, tier, seed):
             print('VIOLATION property=%s replay=%s' % (prop_id, path))
         return 1
     return 0
+
+
+def run_fuzz_engine(prop_id, tier, seed, plan, totals, failures, errors):
+    """atheris/libFuzzer campaign driving the property's own strategy through Hypothesis's fuzz_one_input, with the
+    property's oracle inside the target.  plan = (shards, runs per shard).  Skipped (and recorded) if atheris is missing."""
+    if not plan:
+        return {'used': False, 'reason': 'not configured for this property/tier'}
+    import shutil
+    import subprocess
+    import tempfile
+    probe = subprocess.run([sys.executable, '-c', 'import sys; sys.path.insert(0, %r); import atheris' % os.path.join(VERIF_DIR, '.deps')],
+                           stdout=subprocess.DEVNULL, stderr=subprocess.DEVNULL)
+    if probe.returncode != 0:
+        return {'used': False, 'reason': 'atheris is not importable (run ./setup.sh); the Hypothesis/exhaustive part decides the property'}
+    shards, runs = plan
+    t0 = time.time()
+    root = tempfile.mkdtemp(prefix='vpfuzz_%s_' % prop_id)
+    info = {'used': True, 'engine': 'atheris (libFuzzer) -> hypothesis.fuzz_one_input -> property oracle', 'shards': shards,
+            'runs_per_shard': runs, 'evaluations': 0, 'distinct_nontrivial': 0, 'new_buckets': []}
+    try:
+        procs = []
+        for i in range(shards):
+            d = os.path.join(root, 's%d' % i)
+            os.makedirs(d)
+            env = dict(os.environ)
+            env['PYTHONHASHSEED'] = '0'
+            p = subprocess.Popen([sys.executable, '-B', os.path.join(VERIF_DIR, 'vp', 'fuzz_engine.py'), prop_id, tier, d, str(runs),
+                                  str((seed * 7919 + i) % (2 ** 31 - 1) + 1)], stdout=subprocess.DEVNULL, stderr=subprocess.DEVNULL, env=env, cwd=VERIF_DIR)
+            procs.append((d, p))
+        limit = 3000 if tier == 'thorough' else 240
+        for d, p in procs:
+            try:
+                p.wait(timeout=max(5, limit - (time.time() - t0)))
+            except subprocess.TimeoutExpired:
+                p.kill()
+                info['stopped_by_wall_clock'] = info.get('stopped_by_wall_clock', 0) + 1
+        hashes = set()
+        for d, p in procs:
+            sp = os.path.join(d, 'stats.json')
+            if os.path.exists(sp):
+                st = json.load(open(sp))
+                info['evaluations'] += st['evaluations']
+                hashes |= set(st['hashes'])
+                totals['discarded'] += st['discarded']
+                for k, v in st['counters'].items():
+                    totals['counters']['fuzz:' + k] = totals['counters'].get('fuzz:' + k, 0) + v
+                for k, v in st['known_hits'].items():
+                    totals['known_hits'][k] = totals['known_hits'].get(k, 0) + v
+            fp = os.path.join(d, 'findings.jsonl')
+            if os.path.exists(fp):
+                for line in open(fp):
+                    f = json.loads(line)
+                    if f['bucket'] not in failures:
+                        failures[f['bucket']] = {'bucket': f['bucket'], 'message': f['message'], 'details': {}, 'case': f['case'],
+                                                 'origin': 'coverage-guided', 'count': 1, 'config': 'scipy'}
+                        info['new_buckets'].append(f['bucket'])
+        new = hashes - totals['hashes']
+        info['distinct_nontrivial'] = len(hashes)
+        info['distinct_nontrivial_not_seen_by_hypothesis_engine'] = len(new)
+        totals['hashes'] |= hashes
+        totals['evaluations'] += info['evaluations']
+    finally:
+        shutil.rmtree(root, ignore_errors=True)
+    info['wall_s'] = round(time.time() - t0, 1)
+    return info
 
 
 def run_replay(prop_id, path):
@@ -614,4 +683,4 @@ def _meta_task(prop_id):
             'HAS_EXHAUSTIVE': hasattr(mod, 'exhaustive'),
             'EXHAUSTIVE_NOTE': getattr(mod, 'EXHAUSTIVE_NOTE', ''),
             'REQUIRED': list(getattr(mod, 'REQUIRED', [])),
-            'TIME_LIMIT': getattr(mod, 'TIME_LIMIT', {})}
+            'TIME_LIMIT': getattr(mod, 'TIME_LIMIT', {}), 'FUZZ': getattr(mod, 'FUZZ', {})}
